@@ -14,7 +14,7 @@ CONSTANTS
   Writers = {"A", "B"}
   Lens = {1}
   ReadMax = {4}
-  Closers = {"A"}
+  Closers = {}
   MuxDroppers = {}
   Cancellers = {}
   DgSenders = {}
@@ -23,7 +23,7 @@ CONSTANTS
   MaxBinds = 0
   Faults = {}
   AdvMsgs <- AdvSet
-  MaxAdv = 2
+  MaxAdv = 3
   Bridgers = {}
   MaxHandles = 2
   MaxCtr = 1
